@@ -748,7 +748,12 @@ def esccall(repo: Repo) -> List[Ob]:
     # CompositeEnvelope.trace_out: reorder(*states) precedes ps.trace_out(*states) (the generator keeps storage order)
     ce = repo.func("CompositeEnvelope.trace_out")
     cfg = CFG(ce.node)
-    to = [n for n in cfg.nodes for x in walk_node(n) if method_call(x) and method_call(x)[1] == "trace_out" and src(method_call(x)[0]) != "self"]
+    from ..types import Typer
+    typer = Typer(repo, ce)
+    # partial traces taken from a product space (a single member outside every product space may answer for itself: one
+    # subsystem has no order)
+    to = [n for n in cfg.nodes for x in walk_node(n) if method_call(x) and method_call(x)[1] == "trace_out" and src(method_call(x)[0]) != "self"
+          and (typer.classes(method_call(x)[0]) == {"ProductState"} or not typer.classes(method_call(x)[0])) and not (x.args == [] and isinstance(method_call(x)[0], ast.Subscript))]
     ro = {n for n in cfg.nodes for x in walk_node(n) if method_call(x) and method_call(x)[1] == "reorder" and src(method_call(x)[0]) == "self"}
     if not to:
         raise AnalysisError("ESCCALL: CompositeEnvelope.trace_out delegates nowhere")
